@@ -6,6 +6,14 @@
 #include <ios> // streamsize
 #include <vector>
 
+#ifndef BINLOG_VERIF_POINT
+  #if defined(BINLOG_VERIF) && defined(BINLOG_VERIF_POINT_HOOK)
+    #define BINLOG_VERIF_POINT(name) BINLOG_VERIF_POINT_HOOK(name)
+  #else
+    #define BINLOG_VERIF_POINT(name)
+  #endif
+#endif
+
 namespace binlog {
 namespace detail {
 
@@ -83,11 +91,15 @@ public:
       // vector will reallocate, clear the magic of the old buffer
       // to avoid recovering invalid data
       magic = clearMagic();
+      BINLOG_VERIF_POINT("meta-magic-cleared");
     }
 
     _vector.insert(_vector.end(), buffer, buffer + size);
+    BINLOG_VERIF_POINT("meta-inserted");
     if (magic != 0) { setMagic(magic); }
+    BINLOG_VERIF_POINT("meta-magic-set");
     updateSize();
+    BINLOG_VERIF_POINT("meta-size-updated");
     return *this;
   }
 
